@@ -34,7 +34,7 @@ TOL_EOS = 1e-4        # statement: P, V, T, n satisfy the equation of state, rel
 TOL_PHI = 1e-6        # statement: fugacity coefficient matches the equation of state, 1e-6
 TOL_ID = 1e-4         # identities without a tolerance in the statement (x_i P, sum p_i = P, phi_i p_i = 10^SI_i): see run()
 P_MIN, P_MAX = 0.01, 1000.0       # quantifier of the statement: rows whose reported total pressure is outside are not judged
-X_MIN = 1e-12         # components below this mole fraction are not judged component-wise (engine floors, MIN_TOTAL = 1e-25 mol)
+X_MIN = 1e-9          # components below this mole fraction are not judged component-wise (below the solver's resolution: convergence tolerance 1e-8 of element totals)
 PHI_LO, PHI_HI = 0.0101, 84.0     # strictly inside the documented clamp 0.01 .. 85 (engine: exp(-4.6) .. exp(4.44))
 
 # ------------------------------------------------------------------------------------------------ databases (per process)
@@ -479,6 +479,19 @@ def _run_or_pass(item):
     return run_case(item)
 
 
+class _PassPool:
+    """Hands finished results straight to core.explore_cases and forwards everything else (the fresh-process
+    confirmation of candidates) to the real pool."""
+
+    def __init__(self, real):
+        self.real = real
+
+    def map(self, f, items, chunksize=1, ordered=False):
+        if f is _run_or_pass:
+            return iter(items)
+        return self.real.map(f, items, chunksize, ordered)
+
+
 class Stats:
     def __init__(self):
         self.rel = {}
@@ -560,7 +573,7 @@ def run(tier):
         "'two-phase region of the cubic' = the cubic in Z has three real roots at the reported pressure or at the oracle's pressure, or is within 1e-3 of a double root; EOS and phi are not judged there, the identities are",
         "EOS relation passes if either the pressure at the reported molar volume or the molar volume at the reported pressure is within 1e-4",
         "identities for which the statement gives no tolerance (p_i = x_i P, sum p_i = P, phi_i p_i = 10^SI_i) are judged at the statement's general 1e-4 relative (measured solver noise at 0.01 atm is up to ~2e-5)",
-        "rows whose reported total pressure is outside 0.01..1000 atm are outside the quantifier and not judged; components with mole fraction < 1e-12 are not judged component-wise",
+        "rows whose reported total pressure is outside 0.01..1000 atm are outside the quantifier and not judged; components with mole fraction < 1e-9 are not judged component-wise (below the resolution of the solver: convergence tolerance 1e-8 relative to element totals)",
         "every solution has 0.1 kg water and the gas 1 L (initially), so that low-pressure gas is not a trace of the system",
         "EQUILIBRIUM_PHASES: the fugacity coefficient is compared with the pure-gas equation of state for a single gas only; for two gases only fugacity = 10^SI is judged",
     ]
@@ -569,26 +582,36 @@ def run(tier):
     st = Stats()
     total = 0
     stop = False
+    finished = []                 # results of completed bounds, in enumeration order
+    bound_info = []
+    by_outcome = {}
     for name, cs in bounds(tier):
         if stop:
-            ev.bound(name, False, cases=len(cs))
+            bound_info.append((name, False, {"cases": len(cs)}))
             continue
         results = []
-        cut = False
         for res in pool.map(run_case, cs, 8, ordered=True):
             results.append(res)
-            st.add(res)
-            if dl.passed():
-                cut = True
+            if dl.passed() and len(results) < len(cs):
                 break
-        if cut:
-            ev.bound(name, False, cases=len(cs), run=len(results))
+        if len(results) < len(cs):
+            bound_info.append((name, False, {"cases": len(cs), "run": len(results)}))
             stop = True
             continue
-        done = core.explore_cases(results, _run_or_pass, ev, findings, pool, chunksize=64, deadline=None)
+        for res in results:
+            st.add(res)
+            if not res.get("not_completed") and res["outcome"] not in by_outcome and len(by_outcome) < 400:
+                by_outcome[res["outcome"]] = res["sample"]
+        finished += results
         total += len(cs)
         nc = sum(1 for r in results if r.get("not_completed"))
-        ev.bound(name, done, cases=len(cs), completed=len(cs) - nc, not_completed=nc)
+        bound_info.append((name, True, {"cases": len(cs), "runs_completed": len(cs) - nc, "runs_not_completed": nc}))
+    # generic counters, replay-before-report (each distinct fingerprint's first case is re-run twice in fresh processes)
+    core.explore_cases(finished, _run_or_pass, ev, findings, _PassPool(pool), chunksize=64, deadline=None)
+    for name, done, info in bound_info:
+        ev.bound(name, done, **info)
+    keys = sorted(by_outcome)
+    ev.extra["samples_distinct_outcomes"] = [by_outcome[k] for k in keys[::max(1, len(keys) // 8)][:8]]
     ev.extra["lattice_points"] = total
     ev.extra["completed_runs"] = st.completed
     ev.extra["not_completed_reasons"] = dict(sorted(st.nc.items(), key=lambda kv: -kv[1])[:12])
